@@ -100,7 +100,9 @@ package keeper
 //@ ghost var trFlagNonce map[int]bool
 //@ ghost var trFlagPaid map[int]bool
 //@ ghost var trFlagNoBaseFee map[int]bool
-//@ axiom transient_ranges: forall l int, i int :: 0 <= trCount[l] && trCount[l] < pow2(64) && 0 <= trGas[l][i] && trGas[l][i] < pow2(64) && 0 <= trLogs[l][i] && trLogs[l][i] < pow2(64)
+//@ axiom transient_count_range: forall l int :: 0 <= trCount[l] && trCount[l] < pow2(64)
+//@ axiom transient_gas_range: forall l int, i int :: 0 <= trGas[l][i] && trGas[l][i] < pow2(64)
+//@ axiom transient_logs_range: forall l int, i int :: 0 <= trLogs[l][i] && trLogs[l][i] < pow2(64)
 
 // running sums over the first n entries
 //@ ghost func sumTo(m map[int]int, n int) int = n <= 0 ? 0 : sumTo(m, n - 1) + m[n - 1]
@@ -255,3 +257,44 @@ package keeper
 //@   modifies nothing
 //@   ensures[C04.balance_view] result != nil && bigval[result] == (evmDenomOf[layer(ctx)] == "" ? -1 : bankBal[layer(ctx)][addrBytes(addr)][evmDenomOf[layer(ctx)]])
 //@   panics never
+
+// ---------------------------------------------------------------------------------------------
+// msg_server.go — the message handler of MsgEthereumTx
+// ---------------------------------------------------------------------------------------------
+//@ import context "context"
+//@ import sdkmath "cosmossdk.io/math"
+//@ import cmtbytes "github.com/cometbft/cometbft/libs/bytes"
+
+//@ func (k Keeper) SetFlagSenderNonceIncreasedByAnteHandle(ctx sdk.Context, increased bool)
+//@   assumed
+//@   modifies trFlagNonce[layer(ctx)]
+//@   ensures trFlagNonce[layer(ctx)] == increased
+//@   panics never
+//@ func (k Keeper) SetFlagSenderPaidTxFeeInAnteHandle(ctx sdk.Context, paid bool)
+//@   assumed
+//@   modifies trFlagPaid[layer(ctx)]
+//@   ensures trFlagPaid[layer(ctx)] == paid
+//@   panics never
+
+// the fee market keeper as x/evm sees it (implemented by x/feemarket/keeper.Keeper.GetBaseFee = GetParams(ctx).BaseFee)
+//@ func (fk evmtypes.FeeMarketKeeper) GetBaseFee(ctx sdk.Context) sdkmath.Int
+//@   assumed
+//@   modifies nothing
+//@   ensures inil(result) == fmBaseFeeNil[layer(ctx)] && (!inil(result) ==> iv(result) == fmBaseFee[layer(ctx)])
+//@   panics never
+
+// EthereumTx: what one delivered Ethereum transaction does to the sender's sequence (C06), to the coin supply (C04) and
+// to the gas the consensus result reports (C05). Preconditions are the facts the ante handler chain establishes
+// (decodable payload, valid bech32 sender that equals the recovered signer, gas meter limited to the tx gas).
+//@ func (k *Keeper) EthereumTx(goCtx context.Context, msg *evmtypes.MsgEthereumTx) (res *evmtypes.MsgEthereumTxResponse, err error)
+//@   requires k != nil && msg != nil && typeof(goCtx) == type(sdk.Context) && k.feeMarketKeeper != nil && k.bankKeeper != nil
+//@   requires bech32Valid(msg.From) && txDecodable(bytes(msg.MarshalledTx)) && decType(bytes(msg.MarshalledTx)) <= 2
+//@   requires bech32Bytes(msg.From) == addrBytes(decSender(bytes(msg.MarshalledTx)))
+//@   requires sdk.UnwrapSDKContext(goCtx).GasMeter() != nil && gmLimit(payload(sdk.UnwrapSDKContext(goCtx).GasMeter())) == decGas(bytes(msg.MarshalledTx)) && gmConsumed[payload(sdk.UnwrapSDKContext(goCtx).GasMeter())] <= decGas(bytes(msg.MarshalledTx))
+//@   requires !fmBaseFeeNil[layer(sdk.UnwrapSDKContext(goCtx))] && fmBaseFee[layer(sdk.UnwrapSDKContext(goCtx))] >= 0
+//@   ensures[C06.ante_increment_undone_once] old(trFlagNonce[layer(sdk.UnwrapSDKContext(goCtx))]) ==> old(acctSeq[layer(sdk.UnwrapSDKContext(goCtx))][bech32Bytes(msg.From)]) == decNonce(bytes(msg.MarshalledTx)) + 1
+//@   ensures[C06.nonce_exactly_plus_one] err == nil ==> (acctSeq[layer(sdk.UnwrapSDKContext(goCtx))][bech32Bytes(msg.From)] == decNonce(bytes(msg.MarshalledTx)) + 1 && !trFlagNonce[layer(sdk.UnwrapSDKContext(goCtx))])
+//@   ensures[C06.nonce_matched_sequence] err == nil ==> old(acctSeq[layer(sdk.UnwrapSDKContext(goCtx))][bech32Bytes(msg.From)]) == decNonce(bytes(msg.MarshalledTx)) + (old(trFlagNonce[layer(sdk.UnwrapSDKContext(goCtx))]) ? 1 : 0)
+//@   ensures[C04.tx_conserves_supply] err == nil ==> (forall den string :: bankSupply[layer(sdk.UnwrapSDKContext(goCtx))][den] <= old(bankSupply[layer(sdk.UnwrapSDKContext(goCtx))][den]))
+//@   ensures[C05.consensus_gas_is_receipt_gas] err == nil ==> (res != nil && gmConsumed[payload(sdk.UnwrapSDKContext(goCtx).GasMeter())] == res.GasUsed && res.GasUsed <= decGas(bytes(msg.MarshalledTx)))
+//@   panics any
